@@ -482,6 +482,10 @@ COUNT_PROBES = [
     ('literal-size-0-effectful-initializer', 'let c = 0; function t() -> begin c <- c + 1; print("init~;", c); c end; let a = array(0, t()); let b = array(1, t()); let d = array(2, t()); print("~ ~ ~ ran ~\\n", a, b, d, c)'),
     ('literal-size-negative-effectful-initializer', 'let c = 0; function t() -> begin c <- c + 1; print("init~;", c); c end; print("before\\n"); let a = array(-1, t()); print("never ~\\n", c)'),
     ('literal-size-1-block-initializer', 'let a = array(1, begin print("once;"); 5 end); print("~\\n", a)'),
+    ('array-initializer-operator-on-plain-operands', 'let d = object begin let n = 0; function +(k) -> begin this.n <- this.n + k; print("issue ~;", this.n); this.n end; function *(k) -> begin this.n <- this.n + 10; this.n end; '
+     'function ==(k) -> begin this.n <- this.n + 100; true end; function get(i) -> begin this.n <- this.n + 1000; i end; function m() -> begin this.n <- this.n + 10000; 0 end end; let one = 1; '
+     'print("~ ", array(3, d + 1)); print("~ ", array(2, d * one)); print("~ ", array(2, d == null)); print("~ ", array(2, d[0])); print("~ ", array(2, d.m())); print("~ ", array(2, one + d.n)); print("~\\n", d.n)'),
+    ('array-of-size-zero-never-runs-its-initializer', 'let missing = null; let z = 0; print("~ ~\\n", array(0, missing + 1), array(z, 1 / z)); print("~\\n", array(1, missing == null))'),
     ('discarded-operator-on-plain-operands', 'let o = object begin let n = 0; function +(k) -> begin this.n <- this.n + k; this.n end; function ==(k) -> begin this.n <- this.n + 100; true end; function <(k) -> begin this.n <- this.n + 1000; false end end; let five = 5; '
      'o + 5; o + five; begin o + 1; 0 end; o == null; o < 3; let i = 0; while i < 2 do begin o + 10; i <- i + 1 end; if true then o + 20 else o + 40; function f() -> begin o + 7; 0 end; f(); print("~\\n", o.n)'),
     ('discarded-operator-on-fields', 'let o = object begin let n = 0; let w = object begin let v = 2 end; function *(k) -> begin this.n <- this.n + k; this end end; o * o.w.v; o.w.v * 3; o * 1 * 2; o.*(4); print("~\\n", o.n)'),
@@ -774,7 +778,7 @@ def deep_programs(tier):
     P.append(('cycle:unprinted-is-fine', 'let a = array(1, null); a[0] <- a; let b = array(2, 5); print("~\\n", b); print("ok\\n")'))
     n = 1000 if big else 150
     P.append(('cycle:ring-%d' % n, 'let first = array(1, null); let cur = first; let i = 0; while i < %d do begin let nx = array(1, null); cur[0] <- nx; cur <- nx; i <- i + 1 end; cur[0] <- first; print("built\\n"); print("~\\n", first)' % n))
-    m = 1000 if big else 200
+    m = 1000 if big else 300          # (beyond 255 and 256 links)
     P.append(('chain:list-%d-print' % m, 'let l = null; let i = 0; while i < %d do begin l <- object begin let next = l; let v = i end; i <- i + 1 end; print("~\\n", l)' % m))
     P.append(('chain:parents-%d-dispatch' % m, 'let o = 5; let i = 0; while i < %d do begin o <- object extends o begin end; i <- i + 1 end; print("~\\n", o + 1); print("~\\n", o.nosuch(1))' % m))
     P.append(('chain:nested-arrays-%d-print' % m, 'let a = array(1, 0); let i = 0; while i < %d do begin a <- array(1, a); i <- i + 1 end; print("~\\n", a)' % m))
@@ -788,7 +792,11 @@ def deep_programs(tier):
     P.append(('nest:calls-%d' % k, 'function f(a) -> a + 1; print("~\\n", ' + 'f(' * k + '0' + ')' * k + ')'))
     # large scale: beyond what the reference semantics can execute inside TLC; judged by the termination rules only
     L = []
+    EXP = {'large:recursion-100000': (True, b'100000\n'), 'large:ring-1000': (False, b'built\n'), 'large:parents-1000-dispatch': (False, b'6\n'), 'large:parents-70000-dispatch': (False, b'6\n'),
+           'large:cycle-after-20000-allocations': (False, b'built\n'), 'large:cycle-through-object-after-5000-arrays': (False, b'built\n'), 'large:blocks-200': (True, b'deep\n'),
+           'large:operators-200': (True, b'201\n'), 'large:mutual-cycle-1000': (False, b'built\n'), 'large:method-found-after-1000-parents': (True, b'7 1000\n')}
     L.append(('large:recursion-100000', 'function d(n) -> if n == 0 then 0 else 1 + d(n - 1); print("~\\n", d(100000))'))
+    L.append(('large:method-found-after-1000-parents', 'let o = object begin let hits = 0; function m() -> 7 end; let i = 0; while i < 1000 do begin o <- object extends o begin end; i <- i + 1 end; print("~ ~\\n", o.m(), i)'))
     L.append(('large:ring-1000', 'let first = array(1, null); let cur = first; let i = 0; while i < 1000 do begin let nx = array(1, null); cur[0] <- nx; cur <- nx; i <- i + 1 end; cur[0] <- first; print("built\\n"); print("~\\n", first)'))
     L.append(('large:list-1000-print', 'let l = null; let i = 0; while i < 1000 do begin l <- object begin let next = l; let v = i end; i <- i + 1 end; print("~\\n", l)'))
     L.append(('large:parents-1000-dispatch', 'let o = 5; let i = 0; while i < 1000 do begin o <- object extends o begin end; i <- i + 1 end; print("~\\n", o + 1); print("~\\n", o.nosuch(1))'))
@@ -797,7 +805,7 @@ def deep_programs(tier):
     L.append(('large:blocks-200', 'begin ' * 200 + 'print("deep\\n")' + ' end' * 200))
     L.append(('large:operators-200', 'print("~\\n", ' + '1 + (' * 200 + '1' + ')' * 200 + ')'))
     L.append(('large:mutual-cycle-1000', 'let a = array(1000, null); let i = 0; while i < 1000 do begin a[i] <- a; i <- i + 1 end; print("built\\n"); print("~\\n", a)'))
-    return [{'name': n_, 'text': t, 'ast': None} for n_, t in P] + [{'name': n_, 'text': t, 'ast': None, 'large': True} for n_, t in L]
+    return [{'name': n_, 'text': t, 'ast': None} for n_, t in P] + [{'name': n_, 'text': t, 'ast': None, 'large': True, 'expect': EXP.get(n_)} for n_, t in L]
 
 
 TOKEN_SPLIT = None
@@ -923,7 +931,9 @@ def c10(tier):
             meta[j] = (i, action, rc, so, se)
             if ast is None or p.get('large'):
                 # no AST: the parser rejected the text (or died): judged at process level only; large programs: termination rules only
-                pobs.append({'id': j, 'rule': 'clean' if p.get('large') else 'reject', 'exit': rc if rc >= 0 else 128 - rc, 'signaled': signaled, 'outlen': len(so), 'errempty': len(se) == 0})
+                exp = p.get('expect')
+                pobs.append({'id': j, 'rule': 'clean' if p.get('large') else 'reject', 'exit': rc if rc >= 0 else 128 - rc, 'signaled': signaled, 'outlen': len(so), 'errempty': len(se) == 0,
+                             'out': list(so[:200]), 'known': exp is not None, 'expok': bool(exp[0]) if exp else False, 'expout': list(exp[1]) if exp else []})
                 continue
             # a process that stops before the program starts (parser, compiler, or the VM refusing to start it, e.g. a function defined twice) is a rejection
             if status == 'fail' and (o.get('parse') != 'ok' or o.get('compile') != 'ok' or (o.get('run') or {}).get('init', 'ok') != 'ok'):
